@@ -47,6 +47,18 @@ def run_cut(I, f, this, args):
     return [("cut", "fail", "the loop under contract was never reached", None)]
 
 
+
+def guard_after(I_, n, env, i0, last=0):
+    """the loop counter is concrete control state, so EVERY index is a step case; after the iteration at index i0 the guard holds iff i0 > last"""
+    init, cond, inc, body = for_parts(n)
+    g = bool(I_.truth(I_.rv(I_.ev(cond, env)), n)) if cond.get("kind") else True
+    return ("step: afterwards the guard holds iff another digit remains (index > %d)" % last, "ok" if g == (i0 > last) else "fail", "index %d: guard %r" % (i0, g), None)
+
+
+def sweep(I_, top, rep):
+    """index of the step case: all of 0 .. top-1 (away from the representative index `rep` the callers reduce the digit alphabet)"""
+    return I_.path.decide(("cut", "index"), tuple(range(0, top)))
+
 # ---------------------------------------------------------------------------
 def gen_fill_table(q, npts):
     def gen(tu):
@@ -96,9 +108,10 @@ def gen_wnaf_table_multiply(q, bits, w):
                     raise CutDone([lin_eq("base: result == O", result.val, Lin()),
                                    ("base: found_one == false", "ok" if fo.v == 0 else "fail", repr(fo.v), None),
                                    ("base: i == wnaf_size - 1", "ok" if ivar.v == size - 1 else "fail", repr(ivar.v), None)])
-                d = I_.path.decide(("cut", "digit"), tuple(digits(w)))
+                i0 = sweep(I_, len(power.f["wnaf"].items), 4)
+                d = I_.path.decide(("cut", "digit"), tuple(digits(w)) if i0 == 4 else (0, 1, -1))
                 f1 = I_.path.decide(("cut", "found_one"), (0, 1))
-                i0 = 4
+                power.f["wnaf_size"].v = max(size, i0 + 1)
                 ivar.v = i0
                 fo.v = f1
                 R = Poly.var("R") if f1 else Poly.const(0)
@@ -108,7 +121,7 @@ def gen_wnaf_table_multiply(q, bits, w):
                 obs = [("step: guard holds for i >= 0", "ok" if went else "fail", "", None),
                        lin_eq("step[d=%d,found_one=%d]: result' == 2*R*P + d*P" % (d, f1), result.val, Pg.scale(2 * R + d)),
                        ("step: found_one' == found_one or d != 0", "ok" if fo.v == (1 if (f1 or d != 0) else 0) else "fail", repr(fo.v), None),
-                       ("step: i' == i - 1", "ok" if ivar.v == i0 - 1 else "fail", repr(ivar.v), None)]
+                       ("step: i' == i - 1", "ok" if ivar.v == i0 - 1 else "fail", repr(ivar.v), None), guard_after(I_, n, env, i0)]
                 for k, e in enumerate(table.f["table"].items):
                     obs.append(lin_eq("frame: table[%d] unchanged" % k, e.val, Pg.scale(2 * k + 1)))
                 raise CutDone(obs)
@@ -143,6 +156,7 @@ def gen_doubleadd(q):
                 if mode == "base":
                     raise CutDone([lin_eq("base: result == O", this.val, Lin()),
                                    ("base: i == highest_bit", "ok" if ivar.v == hb else "fail", repr(ivar.v), None)])
+                i0 = sweep(I_, hb + 1, 77)
                 b = I_.path.decide(("cut", "bit"), (0, 1))
                 ivar.v = i0
                 scalar.val = b << i0
@@ -150,7 +164,7 @@ def gen_doubleadd(q):
                 went = run_iteration(I_, n, env)
                 raise CutDone([("step: guard holds for i >= 0", "ok" if went else "fail", "", None),
                                lin_eq("step[bit=%d]: result' == 2*R*P + bit*P" % b, this.val, Pg.scale(2 * Poly.var("R") + b)),
-                               ("step: i' == i - 1", "ok" if ivar.v == i0 - 1 else "fail", repr(ivar.v), None),
+                               ("step: i' == i - 1", "ok" if ivar.v == i0 - 1 else "fail", repr(ivar.v), None), guard_after(I_, n, env, i0),
                                lin_eq("frame: base unchanged", base.val, Pg)])
             I.loop_cuts[loop["id"]] = cut
             scalar.val = 0
@@ -215,10 +229,13 @@ def gen_endo(tu):
             init, cond, inc, body = for_parts(n)
             if init.get("kind"):
                 I_.exec(init, env)
-            d0 = I_.path.decide(("cut", "d0"), tuple(D))
-            d1 = I_.path.decide(("cut", "d1"), tuple(D))
+            i0 = sweep(I_, len(env[names["wc0"]].f["wnaf"].items), 4)
+            if i0 == 4:
+                d0 = I_.path.decide(("cut", "d0"), tuple(D))
+                d1 = I_.path.decide(("cut", "d1"), tuple(D))
+            else:
+                d0, d1 = I_.path.decide(("cut", "digit pair"), ((1, -3), (None, 1), (-3, None)))
             f1 = I_.path.decide(("cut", "found_one"), (0, 1))
-            i0 = 4
             env[loop_var(n)].v = i0
             env[names["found_one"]].v = f1
             for nm, d in (("wc0", d0), ("wc1", d1)):
@@ -236,7 +253,7 @@ def gen_endo(tu):
             raise CutDone([("step: guard holds", "ok" if went else "fail", "", None),
                            lin_eq("step[d0=%s,d1=%s,neg=(%d,%d),found_one=%d]: acc' == 2*acc + (+-d0 +- lambda*d1)*A" % (d0, d1, neg0, neg1, f1), this.val, want),
                            ("step: found_one'", "ok" if env[names["found_one"]].v == (1 if (f1 or v0 or v1) else 0) else "fail", "", None),
-                           ("step: i' == i - 1", "ok" if env[loop_var(n)].v == i0 - 1 else "fail", "", None)] +
+                           ("step: i' == i - 1", "ok" if env[loop_var(n)].v == i0 - 1 else "fail", "", None), guard_after(I_, n, env, i0)] +
                           [lin_eq("frame: table[%d]" % k, e.val, A.scale(2 * k + 1)) for k, e in enumerate(env[names["wt"]].f["table"].items)])
         I.loop_cuts[loop["id"]] = cut
         c0, c1 = I.new_object("BigInt<256>"), I.new_object("BigInt<256>")
@@ -294,9 +311,9 @@ def gen_frob(tu):
             init, cond, inc, body = for_parts(n)
             if init.get("kind"):
                 I_.exec(init, env)
-            ds = [I_.path.decide(("cut", "d%d" % j), tuple(D)) for j in range(4)]
+            i0 = sweep(I_, len(env[names["wb"]].items[0].f["wnaf"].items), 4)
+            ds = [I_.path.decide(("cut", "d%d" % j), tuple(D) if i0 == 4 else ((1, None) if j < 2 else (-1, None))) for j in range(4)]
             f1 = I_.path.decide(("cut", "found_one"), (0, 1))
-            i0 = 4
             env[loop_var(n)].v = i0
             env[names["found_one"]].v = f1
             wb = env[names["wb"]]
@@ -314,7 +331,7 @@ def gen_frob(tu):
             raise CutDone([("step: guard holds", "ok" if went else "fail", "", None),
                            lin_eq("step[d=%s,found_one=%d]: acc' == 2*acc + sum d_j |x|^j A" % (ds, f1), this.val, want),
                            ("step: found_one'", "ok" if env[names["found_one"]].v == (1 if (f1 or any(ds)) else 0) else "fail", "", None),
-                           ("step: i' == i - 1", "ok" if env[loop_var(n)].v == i0 - 1 else "fail", "", None)])
+                           ("step: i' == i - 1", "ok" if env[loop_var(n)].v == i0 - 1 else "fail", "", None), guard_after(I_, n, env, i0)])
         I.loop_cuts[loop["id"]] = cut
         return run_cut(I, f, this, [a, sc])
     yield "step", guarded(run_step)
